@@ -68,6 +68,25 @@ def positive (step, facts, fnode, path, nonempty_len=None):
           lb = lower_bound(b.id, facts)
           if lb is not None and lb >= 1: return True, "%s - %s == %s and %s >= %d" % (norm(s), step.var, b.id, b.id, lb)
           return False, "%s - %s == %s but no fact bounds %s below: it may be 0" % (norm(s), step.var, b.id, b.id)
+    # the same fact in any arrangement (new == cursor + S, S == new - cursor, ...): linear form new - cursor - S == 0
+    for l, o, r in facts:
+      if r is None or o != '==': continue
+      a = q.lin_terms(l); b = q.lin_terms(r)
+      if a is None or b is None: continue
+      d = dict(a[0])
+      for k_, v_ in b[0].items():
+        d[k_] = d.get(k_, 0) - v_
+        if d[k_] == 0: del d[k_]
+      c0 = a[1] - b[1]
+      for sgn in (1, -1):
+        dd = dict((k_, sgn * v_) for k_, v_ in d.items()); cc = sgn * c0
+        if dd.get(norm(s)) == 1 and dd.get(step.var) == -1:
+          rest = dict((k_, v_) for k_, v_ in dd.items() if k_ not in (norm(s), step.var))
+          # new - cursor = -(rest) - cc ; every rest term must have coefficient -1 and a positive lower bound, or be absent
+          if all(v_ == -1 for v_ in rest.values()):
+            lbs = [lower_bound(k_, facts) for k_ in rest]
+            if all(x is not None for x in lbs) and sum(lbs) - cc >= 1:
+              return True, "%s == %s + %s with %s" % (norm(s), step.var, " + ".join(rest) or str(-cc), ", ".join("%s >= %d" % (k_, x) for k_, x in zip(rest, lbs)))
     # explicit `if new == old: raise`
     for l, o, r in facts:
       if r is not None and o == '!=' and norm(s) in (norm(l), norm(r)):
